@@ -1,4 +1,6 @@
-(* GraphIOSound.v -- what the readers accept and which exceptions they can raise. *)
+(* GraphIOSound.v -- what the readers accept and which exceptions they can raise.
+   Lemmas with suffix _gen hold for both revisions of the code (boolean af of GraphIO.v); the statements without
+   suffix are about the current code, those with suffix _as_found about the code before the repairs of D6/D7/D8. *)
 From Coq Require Import ZArith List Bool Lia ZifyBool Ascii.
 From Coq Require String.
 From Cnfgen Require Import GText GraphIO GTextFacts GraphIOFacts GraphIOMatrix GraphIODimacs GraphIOKth.
@@ -53,12 +55,12 @@ Proof.
   lia.
 Qed.
 
-Lemma kth_header_exn : forall ls e, Forall (fun l => l <> []) ls -> gio_kth_header ls = GRaise e ->
+Lemma kth_next_exn : forall ls e, Forall (fun l => l <> []) ls -> gio_kth_next ls = GRaise e ->
   e = EValueError \/ (e = EStopIteration /\ Forall kth_skip ls).
 Proof.
   induction ls as [|l t IH]; intros e HF H.
   - inversion H. right. split; [reflexivity|constructor].
-  - inversion HF as [|x y Hl Ht]; subst. cbn [gio_kth_header] in H.
+  - inversion HF as [|x y Hl Ht]; subst. cbn [gio_kth_next] in H.
     destruct (gio_kth_line (-1) l) as [[| n | v nb]|e1] eqn:E.
     + destruct (IH e Ht H) as [->|[-> Hs]]; [left; reflexivity|right]. split; [reflexivity|].
       constructor; [eapply kth_skip_of; eauto|exact Hs].
@@ -67,15 +69,34 @@ Proof.
     + inversion H; subst. left. eapply kth_line_exn; eauto.
 Qed.
 
-Lemma kth_header_ok : forall ls n rest, gio_kth_header ls = GOk (n, rest) ->
+Lemma kth_next_ok : forall ls n rest, gio_kth_next ls = GOk (n, rest) ->
   exists skips sl, ls = skips ++ sl :: rest /\ Forall kth_skip skips /\ gio_kth_line (-1) sl = GOk (KISize n) /\ 0 <= n.
 Proof.
-  induction ls as [|l t IH]; intros n rest H; [discriminate|]. cbn [gio_kth_header] in H.
+  induction ls as [|l t IH]; intros n rest H; [discriminate|]. cbn [gio_kth_next] in H.
   destruct (gio_kth_line (-1) l) as [[| n' | v nb]|e1] eqn:E; try discriminate.
   - destruct (IH n rest H) as (skips & sl & -> & Hs & Hl & Hn). exists (l :: skips), sl.
     split; [reflexivity|]. split; [constructor; [eapply kth_skip_of; eauto|exact Hs]|]. split; assumption.
   - inversion H; subst. exists [], l. split; [reflexivity|]. split; [constructor|]. split; [exact E|].
     now apply kth_line_size_inv in E.
+Qed.
+
+(* the header of both revisions: the first yield of the generator when there is one *)
+Lemma kth_header_gen_ok af ls n rest : gio_kth_header_gen af ls = GOk (n, rest) -> gio_kth_next ls = GOk (n, rest).
+Proof. unfold gio_kth_header_gen. destruct (gio_kth_next ls) as [a|[]]; try destruct af; congruence. Qed.
+Lemma kth_header_ok af ls n rest : gio_kth_header_gen af ls = GOk (n, rest) ->
+  exists skips sl, ls = skips ++ sl :: rest /\ Forall kth_skip skips /\ gio_kth_line (-1) sl = GOk (KISize n) /\ 0 <= n.
+Proof. intros H. apply kth_next_ok. eapply kth_header_gen_ok; eauto. Qed.
+(* current code: StopIteration never leaves the header *)
+Lemma kth_header_exn ls e : Forall (fun l => l <> []) ls -> gio_kth_header ls = GRaise e -> e = EValueError.
+Proof.
+  intros HF. unfold gio_kth_header, gio_kth_header_gen. destruct (gio_kth_next ls) as [a|e1] eqn:E; [discriminate|].
+  destruct (kth_next_exn _ _ HF E) as [->|[-> _]]; intros H; now inversion H.
+Qed.
+Lemma kth_header_exn_as_found ls e : Forall (fun l => l <> []) ls -> gio_kth_header_as_found ls = GRaise e ->
+  e = EValueError \/ (e = EStopIteration /\ Forall kth_skip ls).
+Proof.
+  intros HF. unfold gio_kth_header_as_found, gio_kth_header_gen. destruct (gio_kth_next ls) as [a|e1] eqn:E; [discriminate|].
+  destruct (kth_next_exn _ _ HF E) as [->|[-> Hs]]; intros H; inversion H; subst; auto.
 Qed.
 
 (* the adjacency rows of a list of lines *)
@@ -118,7 +139,7 @@ Proof. intros Hk Hn. unfold gio_wf. cbn. repeat split; auto; try lia. constructo
 
 (* reader soundness, simple and directed kthlist: the accepted text is comment/blank lines, one size line,
    then rows with strictly increasing vertex; the graph has that size and exactly the listed edges *)
-Theorem kth_sound k text G : k <> GioBipartite -> gio_read_kth k text = GOk G ->
+Theorem kth_sound_gen af k text G : k <> GioBipartite -> gio_read_kth_gen af k text = GOk G ->
   exists skips sl rest n,
     gt_lines text = skips ++ sl :: rest /\ Forall kth_skip skips /\ gio_kth_line (-1) sl = GOk (KISize n) /\
     io_kind G = k /\ io_n G = n /\ io_r G = 0 /\ gio_wf G /\
@@ -126,9 +147,9 @@ Theorem kth_sound k text G : k <> GioBipartite -> gio_read_kth k text = GOk G ->
     (forall a b, In (a, b) (io_edges G) <->
                  exists r u, In r (kth_rows n rest) /\ In u (snd r) /\ (a, b) = edge_norm k (u, fst r)).
 Proof.
-  intros Hk H. unfold gio_read_kth in H.
-  destruct (gio_kth_header (gt_lines text)) as [[n rest]|] eqn:Eh; [|discriminate]. cbn [gio_bind fst snd] in H.
-  destruct (kth_header_ok _ _ _ Eh) as (skips & sl & Hls & Hs & Hl & Hn).
+  intros Hk H. unfold gio_read_kth_gen in H.
+  destruct (gio_kth_header_gen af (gt_lines text)) as [[n rest]|] eqn:Eh; [|discriminate]. cbn [gio_bind fst snd] in H.
+  destruct (kth_header_ok _ _ _ _ Eh) as (skips & sl & Hls & Hs & Hl & Hn).
   rewrite new_ok in H by lia. cbn [gio_bind] in H.
   apply kth_body_inv in H as (Hinc & -> & Hwf); [|now apply new_wf].
   exists skips, sl, rest, n. cbn [io_kind io_n io_r io_edges gio_with_edges] in *.
@@ -140,34 +161,83 @@ Proof.
     apply in_flat_map. exists r. split; [exact Hr|]. unfold row_edges. apply in_map_iff. eauto.
 Qed.
 
-(* which exceptions the reader can raise: ValueError, or StopIteration exactly when no line is a size line *)
-Theorem kth_exn k text e : gio_read_kth k text = GRaise e ->
-  e = EValueError \/ (e = EStopIteration /\ Forall kth_skip (gt_lines text)).
+Theorem kth_sound k text G : k <> GioBipartite -> gio_read_kth k text = GOk G ->
+  exists skips sl rest n,
+    gt_lines text = skips ++ sl :: rest /\ Forall kth_skip skips /\ gio_kth_line (-1) sl = GOk (KISize n) /\
+    io_kind G = k /\ io_n G = n /\ io_r G = 0 /\ gio_wf G /\
+    rows_inc 0 (kth_rows n rest) /\
+    (forall a b, In (a, b) (io_edges G) <->
+                 exists r u, In r (kth_rows n rest) /\ In u (snd r) /\ (a, b) = edge_norm k (u, fst r)).
+Proof. exact (kth_sound_gen false k text G). Qed.
+
+(* which exceptions the reader can raise.  [P e] is what is known of an exception of the header *)
+Lemma kth_exn_gen af (P : gio_exn -> Prop) k text e :
+  (forall e, gio_kth_header_gen af (gt_lines text) = GRaise e -> P e) -> P EValueError ->
+  gio_read_kth_gen af k text = GRaise e -> P e.
 Proof.
-  unfold gio_read_kth. intros H. pose proof (lines_nonnil text) as Hne.
-  destruct (gio_kth_header (gt_lines text)) as [[n rest]|e1] eqn:Eh; cbn [gio_bind fst snd] in H.
-  - left. destruct (gio_new k (gio_kth_name (gt_lines text)) n 0) as [G0|e2] eqn:En; cbn [gio_bind] in H.
-    + destruct (kth_header_ok _ _ _ Eh) as (skips & sl & Hls & _). rewrite Hls in Hne.
+  unfold gio_read_kth_gen. intros HP HV H. pose proof (lines_nonnil text) as Hne.
+  destruct (gio_kth_header_gen af (gt_lines text)) as [[n rest]|e1] eqn:Eh; cbn [gio_bind fst snd] in H.
+  - assert (e = EValueError); [|now subst].
+    destruct (gio_new k (gio_kth_name (gt_lines text)) n 0) as [G0|e2] eqn:En; cbn [gio_bind] in H.
+    + destruct (kth_header_ok _ _ _ _ Eh) as (skips & sl & Hls & _). rewrite Hls in Hne.
       apply Forall_app in Hne as [_ Hne]. inversion Hne; subst. eapply kth_body_exn; eauto.
     + inversion H; subst. eapply new_exn; eauto.
-  - inversion H; subst. eapply kth_header_exn; eauto.
+  - inversion H; subst. now apply HP.
+Qed.
+
+(* current code: ValueError only, for every text *)
+Theorem kth_exn k text e : gio_read_kth k text = GRaise e -> e = EValueError.
+Proof.
+  apply (kth_exn_gen false (fun e => e = EValueError)); [|reflexivity].
+  intros e0 H. eapply kth_header_exn; [apply lines_nonnil|exact H].
+Qed.
+(* as found: ValueError, or StopIteration exactly when no line is a size line *)
+Theorem kth_exn_as_found k text e : gio_read_kth_as_found k text = GRaise e ->
+  e = EValueError \/ (e = EStopIteration /\ Forall kth_skip (gt_lines text)).
+Proof.
+  apply (kth_exn_gen true (fun e => e = EValueError \/ (e = EStopIteration /\ Forall kth_skip (gt_lines text)))); [|now left].
+  intros e0 H. eapply kth_header_exn_as_found; [apply lines_nonnil|exact H].
 Qed.
 
 (* ---------- bipartite kthlist ---------- *)
 Definition dict_fold (rows d : list (Z * list Z)) : list (Z * list Z) :=
   fold_left (fun d r => gio_dict_set (fst r) (snd r) d) rows d.
 
-Lemma kthb_body_inv size : forall ls lo hi d lo' d', gio_kthb_body size ls lo hi d = GOk (lo', d') ->
+Lemma kthb_body_inv af size : forall ls prev lo hi d lo' d', gio_kthb_body_gen af size ls prev lo hi d = GOk (lo', d') ->
   d' = dict_fold (kth_rows size ls) d.
 Proof.
-  induction ls as [|l t IH]; intros lo hi d lo' d' H.
+  induction ls as [|l t IH]; intros prev lo hi d lo' d' H.
   - inversion H; subst. reflexivity.
-  - cbn [gio_kthb_body] in H. unfold kth_rows. cbn [flat_map]. fold (kth_rows size t).
+  - cbn [gio_kthb_body_gen] in H. unfold kth_rows. cbn [flat_map]. fold (kth_rows size t).
     destruct (gio_kth_line size l) as [[| n' | v nb]|e1] eqn:E; try discriminate.
     + cbn [app]. eauto.
-    + destruct (v <=? 0); [discriminate|]. destruct (v >? hi); [discriminate|].
+    + destruct (v <=? prev); [discriminate|]. destruct (v >? hi); [discriminate|].
       destruct (gio_kthb_scan nb (Z.max lo (v + 1)) hi) as [hi'|]; [|discriminate].
       apply IH in H. subst d'. reflexivity.
+Qed.
+
+(* current code: the left vertices of the rows increase strictly *)
+Lemma kthb_body_inc size : forall ls prev lo hi d lo' d', gio_kthb_body_gen false size ls prev lo hi d = GOk (lo', d') ->
+  rows_inc prev (kth_rows size ls).
+Proof.
+  induction ls as [|l t IH]; intros prev lo hi d lo' d' H; [exact I|].
+  cbn [gio_kthb_body_gen] in H. unfold kth_rows. cbn [flat_map]. fold (kth_rows size t).
+  destruct (gio_kth_line size l) as [[| n' | v nb]|e1] eqn:E; try discriminate.
+  - cbn [app]. eauto.
+  - destruct (v <=? prev) eqn:Ev; [discriminate|]. destruct (v >? hi); [discriminate|].
+    destruct (gio_kthb_scan nb (Z.max lo (v + 1)) hi) as [hi'|]; [|discriminate].
+    apply IH in H. cbn [app rows_inc fst]. split; [lia|exact H].
+Qed.
+
+Lemma rows_inc_lower : forall rows prev, rows_inc prev rows -> forall r, In r rows -> prev < fst r.
+Proof.
+  induction rows as [|r0 t IH]; intros prev H r Hin; [destruct Hin|]. destruct H as [H1 H2].
+  destruct Hin as [<-|Hin]; [exact H1|]. specialize (IH _ H2 _ Hin). lia.
+Qed.
+Lemma rows_inc_NoDup : forall rows prev, rows_inc prev rows -> NoDup (map fst rows).
+Proof.
+  induction rows as [|r0 t IH]; intros prev H; [constructor|]. destruct H as [H1 H2]. cbn [map]. constructor; [|eauto].
+  intros Hin. apply in_map_iff in Hin as [r [Hr Hin]]. pose proof (rows_inc_lower _ _ H2 _ Hin). lia.
 Qed.
 
 Lemma dict_fold_distinct : forall rows d, NoDup (map fst d ++ map fst rows) -> dict_fold rows d = d ++ rows.
@@ -181,14 +251,14 @@ Proof.
   - apply NoDup_remove_2 in Hnd. intros Hin. apply Hnd. apply in_or_app. now left.
 Qed.
 
-Lemma kthb_body_exn size : forall ls lo hi d e, Forall (fun l => l <> []) ls ->
-  gio_kthb_body size ls lo hi d = GRaise e -> e = EValueError.
+Lemma kthb_body_exn af size : forall ls prev lo hi d e, Forall (fun l => l <> []) ls ->
+  gio_kthb_body_gen af size ls prev lo hi d = GRaise e -> e = EValueError.
 Proof.
-  induction ls as [|l t IH]; intros lo hi d e HF H; [discriminate|]. inversion HF as [|x y Hl Ht]; subst.
-  cbn [gio_kthb_body] in H. destruct (gio_kth_line size l) as [[| n' | v nb]|e1] eqn:E.
+  induction ls as [|l t IH]; intros prev lo hi d e HF H; [discriminate|]. inversion HF as [|x y Hl Ht]; subst.
+  cbn [gio_kthb_body_gen] in H. destruct (gio_kth_line size l) as [[| n' | v nb]|e1] eqn:E.
   - eauto.
   - now inversion H.
-  - destruct (v <=? 0); [now inversion H|]. destruct (v >? hi); [now inversion H|].
+  - destruct (v <=? prev); [now inversion H|]. destruct (v >? hi); [now inversion H|].
     destruct (gio_kthb_scan nb (Z.max lo (v + 1)) hi); [eauto|now inversion H].
   - inversion H; subst. eapply kth_line_exn; eauto.
 Qed.
@@ -196,24 +266,29 @@ Qed.
 Lemma new_bip_wf name n r : 0 <= n -> 0 <= r -> gio_wf (mkIOG GioBipartite name n r []).
 Proof. intros Hn Hr. unfold gio_wf. cbn. split; [lia|]. split; [lia|]. split; [congruence|]. split; constructor. Qed.
 
-(* reader soundness for bipartite kthlist.  The edge characterisation needs the left vertices to be
-   listed once each: the code never updates `previous` (defect D8, see kthb_sound_refuted). *)
-Theorem kthb_sound_partial text G : gio_read_kthb text = GOk G ->
+(* reader soundness for bipartite kthlist, both revisions.  The edge characterisation needs the left
+   vertices to be listed once each; the current code guarantees it (kthb_sound), the code as found does
+   not: it never updates `previous` (defect D8, see kthb_sound_refuted). *)
+Theorem kthb_sound_gen af text G : gio_read_kthb_gen af text = GOk G ->
   exists skips sl rest n,
     gt_lines text = skips ++ sl :: rest /\ Forall kth_skip skips /\ gio_kth_line (-1) sl = GOk (KISize n) /\
     io_kind G = GioBipartite /\ io_n G + io_r G = n /\ gio_wf G /\
+    (af = false -> rows_inc 0 (kth_rows n rest)) /\
     (NoDup (map fst (kth_rows n rest)) ->
      forall a b, In (a, b) (io_edges G) <->
                  exists r v, In r (kth_rows n rest) /\ In v (snd r) /\ a = fst r /\ b = v - io_n G).
 Proof.
-  intros H. unfold gio_read_kthb in H.
-  destruct (gio_kth_header (gt_lines text)) as [[n rest]|] eqn:Eh; [|discriminate]. cbn [gio_bind fst snd] in H.
-  destruct (kth_header_ok _ _ _ Eh) as (skips & sl & Hls & Hs & Hl & Hn).
-  destruct (gio_kthb_body n rest 1 n []) as [[lo d]|] eqn:Eb; [|discriminate]. cbn [gio_bind fst snd] in H.
+  intros H. unfold gio_read_kthb_gen in H.
+  destruct (gio_kth_header_gen af (gt_lines text)) as [[n rest]|] eqn:Eh; [|discriminate]. cbn [gio_bind fst snd] in H.
+  destruct (kth_header_ok _ _ _ _ Eh) as (skips & sl & Hls & Hs & Hl & Hn).
+  destruct (gio_kthb_body_gen af n rest 0 1 n []) as [[lo d]|] eqn:Eb; [|discriminate]. cbn [gio_bind fst snd] in H.
   destruct (gio_new GioBipartite (gio_kth_name (gt_lines text)) (lo - 1) (n - lo + 1)) as [G0|] eqn:En; [|discriminate].
   cbn [gio_bind] in H. apply new_inv in En as (HL & HR & ->).
   pose proof (add_edges_wf _ _ _ (new_bip_wf _ _ _ HL HR) H) as Hwf.
-  apply add_edges_inv in H as [Hok ->]. apply kthb_body_inv in Eb. subst d.
+  apply add_edges_inv in H as [Hok ->].
+  assert (Hinc : af = false -> rows_inc 0 (kth_rows n rest)).
+  { intros ->. eapply kthb_body_inc; eauto. }
+  apply kthb_body_inv in Eb. subst d.
   exists skips, sl, rest, n. cbn [io_kind io_n io_r io_edges gio_with_edges] in *.
   repeat (split; [assumption || reflexivity || lia|]).
   intros Hnd a b. rewrite dict_fold_distinct by exact Hnd. cbn [app]. rewrite insert_all_In. cbn [In].
@@ -225,18 +300,59 @@ Proof.
     apply in_flat_map. exists r. split; [exact Hr|]. apply in_map_iff. eauto.
 Qed.
 
-Theorem kthb_exn text e : gio_read_kthb text = GRaise e ->
-  e = EValueError \/ (e = EStopIteration /\ Forall kth_skip (gt_lines text)).
+(* current code: an accepted text is comment/blank lines, one size line n, then rows "u : v1 ... vk 0" with strictly
+   increasing left vertex u; the two sides add up to n and the edges are exactly the listed pairs (u, v - L) *)
+Theorem kthb_sound text G : gio_read_kthb text = GOk G ->
+  exists skips sl rest n,
+    gt_lines text = skips ++ sl :: rest /\ Forall kth_skip skips /\ gio_kth_line (-1) sl = GOk (KISize n) /\
+    io_kind G = GioBipartite /\ io_n G + io_r G = n /\ gio_wf G /\
+    rows_inc 0 (kth_rows n rest) /\
+    (forall a b, In (a, b) (io_edges G) <->
+                 exists r v, In r (kth_rows n rest) /\ In v (snd r) /\ a = fst r /\ b = v - io_n G).
 Proof.
-  unfold gio_read_kthb. intros H. pose proof (lines_nonnil text) as Hne.
-  destruct (gio_kth_header (gt_lines text)) as [[n rest]|e1] eqn:Eh; cbn [gio_bind fst snd] in H.
-  - left. destruct (gio_kthb_body n rest 1 n []) as [[lo d]|e2] eqn:Eb; cbn [gio_bind fst snd] in H.
+  intros H. destruct (kthb_sound_gen false text G H) as (skips & sl & rest & n & A & B & C & D & E & F & Hinc & Hed).
+  exists skips, sl, rest, n. specialize (Hinc eq_refl). repeat (split; [assumption|]).
+  apply Hed. eapply rows_inc_NoDup; eauto.
+Qed.
+
+Theorem kthb_sound_as_found_partial text G : gio_read_kthb_as_found text = GOk G ->
+  exists skips sl rest n,
+    gt_lines text = skips ++ sl :: rest /\ Forall kth_skip skips /\ gio_kth_line (-1) sl = GOk (KISize n) /\
+    io_kind G = GioBipartite /\ io_n G + io_r G = n /\ gio_wf G /\
+    (NoDup (map fst (kth_rows n rest)) ->
+     forall a b, In (a, b) (io_edges G) <->
+                 exists r v, In r (kth_rows n rest) /\ In v (snd r) /\ a = fst r /\ b = v - io_n G).
+Proof.
+  intros H. destruct (kthb_sound_gen true text G H) as (skips & sl & rest & n & A & B & C & D & E & F & _ & Hed).
+  exists skips, sl, rest, n. repeat (split; [assumption|]). exact Hed.
+Qed.
+
+Lemma kthb_exn_gen af (P : gio_exn -> Prop) text e :
+  (forall e, gio_kth_header_gen af (gt_lines text) = GRaise e -> P e) -> P EValueError ->
+  gio_read_kthb_gen af text = GRaise e -> P e.
+Proof.
+  unfold gio_read_kthb_gen. intros HP HV H. pose proof (lines_nonnil text) as Hne.
+  destruct (gio_kth_header_gen af (gt_lines text)) as [[n rest]|e1] eqn:Eh; cbn [gio_bind fst snd] in H.
+  - assert (e = EValueError); [|now subst].
+    destruct (gio_kthb_body_gen af n rest 0 1 n []) as [[lo d]|e2] eqn:Eb; cbn [gio_bind fst snd] in H.
     + destruct (gio_new GioBipartite (gio_kth_name (gt_lines text)) (lo - 1) (n - lo + 1)) as [G0|e3] eqn:En; cbn [gio_bind] in H.
       * eapply add_edges_exn; eauto.
       * inversion H; subst. eapply new_exn; eauto.
-    + inversion H; subst. destruct (kth_header_ok _ _ _ Eh) as (skips & sl & Hls & _). rewrite Hls in Hne.
+    + inversion H; subst. destruct (kth_header_ok _ _ _ _ Eh) as (skips & sl & Hls & _). rewrite Hls in Hne.
       apply Forall_app in Hne as [_ Hne]. inversion Hne; subst. eapply kthb_body_exn; eauto.
-  - inversion H; subst. eapply kth_header_exn; eauto.
+  - inversion H; subst. now apply HP.
+Qed.
+
+Theorem kthb_exn text e : gio_read_kthb text = GRaise e -> e = EValueError.
+Proof.
+  apply (kthb_exn_gen false (fun e => e = EValueError)); [|reflexivity].
+  intros e0 H. eapply kth_header_exn; [apply lines_nonnil|exact H].
+Qed.
+Theorem kthb_exn_as_found text e : gio_read_kthb_as_found text = GRaise e ->
+  e = EValueError \/ (e = EStopIteration /\ Forall kth_skip (gt_lines text)).
+Proof.
+  apply (kthb_exn_gen true (fun e => e = EValueError \/ (e = EStopIteration /\ Forall kth_skip (gt_lines text)))); [|now left].
+  intros e0 H. eapply kth_header_exn_as_found; [apply lines_nonnil|exact H].
 Qed.
 
 (* ---------- dimacs ---------- *)
@@ -273,7 +389,7 @@ Definition opt_list {A} (o : option A) : list A := match o with Some a => [a] | 
 Definition dm_ppairs (ls : list gt_str) : list (Z * Z) := flat_map (fun l => opt_list (dm_ppair l)) ls.
 Definition dm_epairs (ls : list gt_str) : list (Z * Z) := flat_map (fun l => opt_list (dm_epair l)) ls.
 
-Lemma dm_line_inv k st raw st' : gio_dimacs_line k st raw = GOk st' ->
+Lemma dm_line_inv af k st raw st' : gio_dimacs_line_gen af k st raw = GOk st' ->
   (dm_ppair raw = None /\ dm_epair raw = None /\ ds_G st' = ds_G st /\ ds_m st' = ds_m st /\ ds_cnt st' = ds_cnt st)
   \/ (exists n m, dm_ppair raw = Some (n, m) /\ dm_epair raw = None /\ ds_G st = None /\ 0 <= n /\
                   ds_G st' = Some (mkIOG k (ds_name st) n 0 []) /\ ds_m st' = m /\ ds_cnt st' = ds_cnt st)
@@ -281,8 +397,9 @@ Lemma dm_line_inv k st raw st' : gio_dimacs_line k st raw = GOk st' ->
                   ds_G st' = Some (gio_with_edges G (gio_insert (edge_norm (io_kind G) e) (io_edges G))) /\
                   ds_m st' = ds_m st /\ ds_cnt st' = ds_cnt st + 1).
 Proof.
-  unfold gio_dimacs_line, dm_ppair, dm_epair, dm_kind.
-  destruct (gt_strip raw) as [|c t] eqn:Es; [discriminate|].
+  unfold gio_dimacs_line_gen, dm_ppair, dm_epair, dm_kind.
+  destruct (gt_strip raw) as [|c t] eqn:Es.
+  { destruct af; [discriminate|]. intros H. inversion H; subst. left. auto. }
   destruct (Ascii.eqb c gt_c) eqn:Ec.
   { intros H. inversion H; subst. left. cbn. auto. }
   destruct (Ascii.eqb c gt_p) eqn:Ep.
@@ -303,11 +420,11 @@ Proof.
   intros H. inversion H; subst. left. auto.
 Qed.
 
-Lemma dm_line_exn k st raw e : gio_dimacs_line k st raw = GRaise e ->
-  e = EValueError \/ (e = EIndexError /\ gt_strip raw = []).
+Lemma dm_line_exn af k st raw e : gio_dimacs_line_gen af k st raw = GRaise e ->
+  e = EValueError \/ (af = true /\ e = EIndexError /\ gt_strip raw = []).
 Proof.
-  unfold gio_dimacs_line, gio_bind. destruct (gt_strip raw) as [|c t] eqn:Es.
-  - intros H. inversion H. right. auto.
+  unfold gio_dimacs_line_gen, gio_bind. destruct (gt_strip raw) as [|c t] eqn:Es.
+  - destruct af; [|discriminate]. intros H. inversion H. right. auto.
   - break_match; intros H; inversion H; subst; left; try reflexivity.
     match goal with K : gio_new _ _ _ _ = GRaise _ |- _ => now apply new_exn in K end.
 Qed.
@@ -317,16 +434,16 @@ Lemma with_edges_wf G es : gio_wf G -> Forall (edge_ok G) es ->
 Proof. intros Hwf Hok. eapply add_edges_wf; [exact Hwf|]. now apply add_edges_ok. Qed.
 
 (* the loop once the graph exists *)
-Lemma dm_loop_some k : forall ls st st' G, ds_G st = Some G -> gio_dimacs_loop k st ls = GOk st' ->
+Lemma dm_loop_some af k : forall ls st st' G, ds_G st = Some G -> gio_dimacs_loop_gen af k st ls = GOk st' ->
   dm_ppairs ls = [] /\ ds_m st' = ds_m st /\ ds_cnt st' = ds_cnt st + Z.of_nat (length (dm_epairs ls)) /\
   Forall (edge_ok G) (dm_epairs ls) /\
   ds_G st' = Some (gio_with_edges G (insert_all (map (edge_norm (io_kind G)) (dm_epairs ls)) (io_edges G))).
 Proof.
   induction ls as [|l t IH]; intros st st' G HG H.
   - inversion H; subst. cbn. rewrite with_edges_self. repeat split; auto; try lia.
-  - cbn [gio_dimacs_loop] in H. destruct (gio_dimacs_line k st l) as [st1|] eqn:El; [|discriminate]. cbn [gio_bind] in H.
+  - cbn [gio_dimacs_loop_gen] in H. destruct (gio_dimacs_line_gen af k st l) as [st1|] eqn:El; [|discriminate]. cbn [gio_bind] in H.
     unfold dm_ppairs, dm_epairs. cbn [flat_map]. fold (dm_ppairs t) (dm_epairs t).
-    destruct (dm_line_inv _ _ _ _ El) as [(Hp & He & HG1 & Hm & Hc)|[(n & m & _ & _ & HN & _)|(G1 & e & He & Hp & HG1 & Hok & HG' & Hm & Hc)]].
+    destruct (dm_line_inv _ _ _ _ _ El) as [(Hp & He & HG1 & Hm & Hc)|[(n & m & _ & _ & HN & _)|(G1 & e & He & Hp & HG1 & Hok & HG' & Hm & Hc)]].
     + rewrite Hp, He. cbn [opt_list app]. rewrite HG in HG1. destruct (IH _ _ _ HG1 H) as (A & B & C & D & E).
       repeat split; auto; congruence || lia.
     + congruence.
@@ -338,7 +455,7 @@ Proof.
 Qed.
 
 (* the loop from the initial state *)
-Lemma dm_loop_none k : forall ls st st', ds_G st = None -> gio_dimacs_loop k st ls = GOk st' ->
+Lemma dm_loop_none af k : forall ls st st', ds_G st = None -> gio_dimacs_loop_gen af k st ls = GOk st' ->
   (dm_ppairs ls = [] /\ ds_G st' = None /\ ds_m st' = ds_m st /\ ds_cnt st' = ds_cnt st)
   \/ (exists n m nm, dm_ppairs ls = [(n, m)] /\ 0 <= n /\ ds_m st' = m /\
         ds_cnt st' = ds_cnt st + Z.of_nat (length (dm_epairs ls)) /\
@@ -347,14 +464,14 @@ Lemma dm_loop_none k : forall ls st st', ds_G st = None -> gio_dimacs_loop k st 
 Proof.
   induction ls as [|l t IH]; intros st st' HG H.
   - inversion H; subst. left. cbn. auto.
-  - cbn [gio_dimacs_loop] in H. destruct (gio_dimacs_line k st l) as [st1|] eqn:El; [|discriminate]. cbn [gio_bind] in H.
+  - cbn [gio_dimacs_loop_gen] in H. destruct (gio_dimacs_line_gen af k st l) as [st1|] eqn:El; [|discriminate]. cbn [gio_bind] in H.
     unfold dm_ppairs, dm_epairs. cbn [flat_map]. fold (dm_ppairs t) (dm_epairs t).
-    destruct (dm_line_inv _ _ _ _ El) as [(Hp & He & HG1 & Hm & Hc)|[(n & m & Hp & He & _ & Hn & HG1 & Hm & Hc)|(G1 & e & _ & _ & HG1 & _)]].
+    destruct (dm_line_inv _ _ _ _ _ El) as [(Hp & He & HG1 & Hm & Hc)|[(n & m & Hp & He & _ & Hn & HG1 & Hm & Hc)|(G1 & e & _ & _ & HG1 & _)]].
     + rewrite Hp, He. cbn [opt_list app]. rewrite HG in HG1.
       destruct (IH _ _ HG1 H) as [(A & B & C & D)|(n & m & nm & A & B & C & D & E & F)].
       * left. repeat split; auto; congruence.
       * right. exists n, m, nm. repeat split; auto; congruence || lia.
-    + rewrite Hp, He. cbn [opt_list app]. destruct (dm_loop_some k _ _ _ _ HG1 H) as (A & B & C & D & E).
+    + rewrite Hp, He. cbn [opt_list app]. destruct (dm_loop_some af k _ _ _ _ HG1 H) as (A & B & C & D & E).
       right. exists n, m, (ds_name st). rewrite A. cbn [io_kind io_edges] in E.
       repeat split; auto; congruence || lia.
     + congruence.
@@ -362,16 +479,16 @@ Qed.
 
 (* reader soundness: exactly one problem line "p edge n m", m edge lines, all after it, all valid;
    the graph has n vertices and exactly the edges of the edge lines *)
-Theorem dimacs_sound k text G : k <> GioBipartite -> gio_read_dimacs k text = GOk G ->
+Theorem dimacs_sound_gen af k text G : k <> GioBipartite -> gio_read_dimacs_gen af k text = GOk G ->
   exists n m, dm_ppairs (gt_lines text) = [(n, m)] /\ Z.of_nat (length (dm_epairs (gt_lines text))) = m /\
     io_kind G = k /\ io_n G = n /\ io_r G = 0 /\ gio_wf G /\
     Forall (edge_ok G) (dm_epairs (gt_lines text)) /\
     (forall a b, In (a, b) (io_edges G) <-> In (a, b) (map (edge_norm k) (dm_epairs (gt_lines text)))).
 Proof.
-  intros Hk H. unfold gio_read_dimacs in H.
-  destruct (gio_dimacs_loop k (mkDS None [] (-1) 0) (gt_lines text)) as [st|] eqn:El; [|discriminate]. cbn [gio_bind] in H.
+  intros Hk H. unfold gio_read_dimacs_gen in H.
+  destruct (gio_dimacs_loop_gen af k (mkDS None [] (-1) 0) (gt_lines text)) as [st|] eqn:El; [|discriminate]. cbn [gio_bind] in H.
   destruct (negb (ds_m st =? ds_cnt st)) eqn:Em; [discriminate|].
-  destruct (dm_loop_none k (gt_lines text) (mkDS None [] (-1) 0) st eq_refl El) as [(A & B & C & D)|(n & m & nm & A & B & C & D & E & F)].
+  destruct (dm_loop_none af k (gt_lines text) (mkDS None [] (-1) 0) st eq_refl El) as [(A & B & C & D)|(n & m & nm & A & B & C & D & E & F)].
   - cbn [ds_m ds_cnt] in *. lia.
   - rewrite F in H. inversion H; subst G. cbn [ds_cnt] in D. exists n, m.
     cbn [gio_with_edges io_kind io_name io_n io_r io_edges].
@@ -382,18 +499,34 @@ Proof.
       * intros a b. rewrite insert_all_In. cbn [In]. tauto.
 Qed.
 
-Theorem dimacs_exn k text e : gio_read_dimacs k text = GRaise e ->
-  e = EValueError \/ (e = EIndexError /\ exists l, In l (gt_lines text) /\ gt_strip l = []).
+Theorem dimacs_sound k text G : k <> GioBipartite -> gio_read_dimacs k text = GOk G ->
+  exists n m, dm_ppairs (gt_lines text) = [(n, m)] /\ Z.of_nat (length (dm_epairs (gt_lines text))) = m /\
+    io_kind G = k /\ io_n G = n /\ io_r G = 0 /\ gio_wf G /\
+    Forall (edge_ok G) (dm_epairs (gt_lines text)) /\
+    (forall a b, In (a, b) (io_edges G) <-> In (a, b) (map (edge_norm k) (dm_epairs (gt_lines text)))).
+Proof. exact (dimacs_sound_gen false k text G). Qed.
+
+Lemma dimacs_exn_gen af k text e : gio_read_dimacs_gen af k text = GRaise e ->
+  e = EValueError \/ (af = true /\ e = EIndexError /\ exists l, In l (gt_lines text) /\ gt_strip l = []).
 Proof.
-  unfold gio_read_dimacs. intros H.
-  destruct (gio_dimacs_loop k (mkDS None [] (-1) 0) (gt_lines text)) as [st|e1] eqn:El; cbn [gio_bind] in H.
+  unfold gio_read_dimacs_gen. intros H.
+  destruct (gio_dimacs_loop_gen af k (mkDS None [] (-1) 0) (gt_lines text)) as [st|e1] eqn:El; cbn [gio_bind] in H.
   - left. destruct (negb (ds_m st =? ds_cnt st)); [now inversion H|]. destruct (ds_G st); [discriminate|now inversion H].
   - inversion H; subst e1. clear H. revert El. generalize (mkDS None [] (-1) 0). induction (gt_lines text) as [|l t IH]; intros st El; [discriminate|].
-    cbn [gio_dimacs_loop] in El. destruct (gio_dimacs_line k st l) as [st1|e2] eqn:E1; cbn [gio_bind] in El.
-    + destruct (IH _ El) as [->|[-> [l' [Hin Hs]]]]; [left; reflexivity|right]. split; [reflexivity|]. exists l'. split; [now right|exact Hs].
-    + inversion El; subst. destruct (dm_line_exn _ _ _ _ E1) as [->|[-> Hs]]; [left; reflexivity|right].
-      split; [reflexivity|]. exists l. split; [now left|exact Hs].
+    cbn [gio_dimacs_loop_gen] in El. destruct (gio_dimacs_line_gen af k st l) as [st1|e2] eqn:E1; cbn [gio_bind] in El.
+    + destruct (IH _ El) as [->|[Haf [-> [l' [Hin Hs]]]]]; [left; reflexivity|right]. split; [exact Haf|]. split; [reflexivity|].
+      exists l'. split; [now right|exact Hs].
+    + inversion El; subst. destruct (dm_line_exn _ _ _ _ _ E1) as [->|[Haf [-> Hs]]]; [left; reflexivity|right].
+      split; [exact Haf|]. split; [reflexivity|]. exists l. split; [now left|exact Hs].
 Qed.
+
+(* current code: ValueError only, for every text *)
+Theorem dimacs_exn k text e : gio_read_dimacs k text = GRaise e -> e = EValueError.
+Proof. intros H. destruct (dimacs_exn_gen false k text e H) as [->|[Haf _]]; [reflexivity|discriminate]. Qed.
+(* as found: ValueError, or IndexError when some line is blank *)
+Theorem dimacs_exn_as_found k text e : gio_read_dimacs_as_found k text = GRaise e ->
+  e = EValueError \/ (e = EIndexError /\ exists l, In l (gt_lines text) /\ gt_strip l = []).
+Proof. intros H. destruct (dimacs_exn_gen true k text e H) as [->|[_ Hr]]; [now left|now right]. Qed.
 
 (* ---------- matrix ---------- *)
 Fixpoint ones (k : Z) (bits : list Z) : list Z :=
@@ -513,13 +646,13 @@ Definition same_but_name (G : iograph) (nm : gt_str) : iograph :=
   mkIOG (io_kind G) nm (io_n G) (io_r G) (io_edges G).
 
 (* a file declared acyclic is accepted exactly when the same file read as a directed graph has increasing edges only *)
-Theorem dag_accept hd f text G :
-  gio_read_graph hd TDag f text = GOk G <->
-  gio_read_graph hd TDigraph f text = GOk G /\ (forall u v, In (u, v) (io_edges G) -> u < v).
+Theorem dag_accept_gen af hd f text G :
+  gio_read_graph_gen af hd TDag f text = GOk G <->
+  gio_read_graph_gen af hd TDigraph f text = GOk G /\ (forall u v, In (u, v) (io_edges G) -> u < v).
 Proof.
-  unfold gio_read_graph. cbn [gio_supported gio_kind_of].
+  unfold gio_read_graph_gen. cbn [gio_supported gio_kind_of].
   destruct (negb (existsb (gio_fmt_eqb f) ([FKthlist; FGml] ++ (if hd then [FDot] else []) ++ [FDimacs]))); [split; [discriminate|intros [H _]; discriminate]|].
-  destruct (match f with FKthlist => gio_read_kth GioDirected text | FDimacs => gio_read_dimacs GioDirected text
+  destruct (match f with FKthlist => gio_read_kth_gen af GioDirected text | FDimacs => gio_read_dimacs_gen af GioDirected text
                     | FMatrix => gio_read_matrix text | _ => GRaise ENotModelled end) as [G1|e]; cbn [gio_bind].
   - rewrite <- is_dag_spec. split.
     + destruct (gio_is_dag G1) eqn:E; [|discriminate]. intros H. inversion H; subst. auto.
@@ -527,31 +660,40 @@ Proof.
   - split; [discriminate|intros [H _]; discriminate].
 Qed.
 
-Theorem dag_reject hd f text G : gio_read_graph hd TDigraph f text = GOk G ->
-  (exists u v, In (u, v) (io_edges G) /\ v <= u) -> gio_read_graph hd TDag f text = GRaise EValueError.
+Theorem dag_accept hd f text G :
+  gio_read_graph hd TDag f text = GOk G <->
+  gio_read_graph hd TDigraph f text = GOk G /\ (forall u v, In (u, v) (io_edges G) -> u < v).
+Proof. exact (dag_accept_gen false hd f text G). Qed.
+
+Theorem dag_reject_gen af hd f text G : gio_read_graph_gen af hd TDigraph f text = GOk G ->
+  (exists u v, In (u, v) (io_edges G) /\ v <= u) -> gio_read_graph_gen af hd TDag f text = GRaise EValueError.
 Proof.
-  unfold gio_read_graph. cbn [gio_supported gio_kind_of].
+  unfold gio_read_graph_gen. cbn [gio_supported gio_kind_of].
   destruct (negb (existsb (gio_fmt_eqb f) ([FKthlist; FGml] ++ (if hd then [FDot] else []) ++ [FDimacs]))); [discriminate|].
-  destruct (match f with FKthlist => gio_read_kth GioDirected text | FDimacs => gio_read_dimacs GioDirected text
+  destruct (match f with FKthlist => gio_read_kth_gen af GioDirected text | FDimacs => gio_read_dimacs_gen af GioDirected text
                     | FMatrix => gio_read_matrix text | _ => GRaise ENotModelled end) as [G1|e]; cbn [gio_bind]; [|discriminate].
   intros H (u & v & Hin & Hle). inversion H; subst. destruct (gio_is_dag G) eqn:E; [|reflexivity].
   rewrite is_dag_spec in E. apply E in Hin. lia.
 Qed.
+
+Theorem dag_reject hd f text G : gio_read_graph hd TDigraph f text = GOk G ->
+  (exists u v, In (u, v) (io_edges G) /\ v <= u) -> gio_read_graph hd TDag f text = GRaise EValueError.
+Proof. exact (dag_reject_gen false hd f text G). Qed.
 
 Definition type_kind_ok (t : gio_gtype) (G : iograph) : Prop :=
   io_kind G = gio_kind_of t /\ (t = TDag -> gio_is_dag G = true).
 
 (* write then read through the public entry points, every graph type, the three in-house formats *)
 Ltac table H := unfold gio_write_graph in H; cbn [gio_supported existsb gio_fmt_eqb app negb orb] in H.
-Ltac table_goal := unfold gio_read_graph; cbn [gio_supported existsb gio_fmt_eqb app negb orb gio_kind_of].
+Ltac table_goal := unfold gio_read_graph_gen; cbn [gio_supported existsb gio_fmt_eqb app negb orb gio_kind_of].
 
 Lemma same_but_name_eq G nm k : io_kind G = k -> mkIOG k nm (io_n G) (io_r G) (io_edges G) = same_but_name G nm.
 Proof. intros <-. reflexivity. Qed.
 
-Theorem graph_roundtrip hd t f G text :
+Theorem graph_roundtrip_gen af hd t f G text :
   gio_wf G -> type_kind_ok t G -> no_nl (io_name G) ->
   gio_write_graph hd t f G = GOk text ->
-  exists nm, gio_read_graph hd t f text = GOk (same_but_name G nm).
+  exists nm, gio_read_graph_gen af hd t f text = GOk (same_but_name G nm).
 Proof.
   intros Hwf [HK Hdag] Hname H.
   assert (Hkn : kth_name_ok (io_name G)) by now apply kth_name_ok_line.
@@ -559,26 +701,49 @@ Proof.
   - (* simple *)
     assert (HnB : io_kind G <> GioBipartite) by congruence.
     destruct f, hd; table H; try discriminate; inversion H; subst text; clear H; table_goal.
-    1,2: destruct (kth_roundtrip G Hwf HnB Hkn) as [nm E]; rewrite HK in E; rewrite E; cbn [gio_bind]; exists nm; now rewrite same_but_name_eq.
-    1,2: destruct (dimacs_roundtrip G Hwf HnB Hname) as [nm E]; rewrite HK in E; rewrite E; cbn [gio_bind]; exists nm; now rewrite same_but_name_eq.
+    1,2: destruct (kth_roundtrip_gen af G Hwf HnB Hkn) as [nm E]; rewrite HK in E; rewrite E; cbn [gio_bind]; exists nm; now rewrite same_but_name_eq.
+    1,2: destruct (dimacs_roundtrip_gen af G Hwf HnB Hname) as [nm E]; rewrite HK in E; rewrite E; cbn [gio_bind]; exists nm; now rewrite same_but_name_eq.
   - (* digraph *)
     assert (HnB : io_kind G <> GioBipartite) by congruence.
     destruct f, hd; table H; try discriminate; inversion H; subst text; clear H; table_goal.
-    1,2: destruct (kth_roundtrip G Hwf HnB Hkn) as [nm E]; rewrite HK in E; rewrite E; cbn [gio_bind]; exists nm; now rewrite same_but_name_eq.
-    1,2: destruct (dimacs_roundtrip G Hwf HnB Hname) as [nm E]; rewrite HK in E; rewrite E; cbn [gio_bind]; exists nm; now rewrite same_but_name_eq.
+    1,2: destruct (kth_roundtrip_gen af G Hwf HnB Hkn) as [nm E]; rewrite HK in E; rewrite E; cbn [gio_bind]; exists nm; now rewrite same_but_name_eq.
+    1,2: destruct (dimacs_roundtrip_gen af G Hwf HnB Hname) as [nm E]; rewrite HK in E; rewrite E; cbn [gio_bind]; exists nm; now rewrite same_but_name_eq.
   - (* dag *)
     assert (HnB : io_kind G <> GioBipartite) by congruence. specialize (Hdag eq_refl).
     assert (Hd : forall nm, gio_is_dag (mkIOG GioDirected nm (io_n G) (io_r G) (io_edges G)) = true) by (intros nm; exact Hdag).
     destruct f, hd; table H; try discriminate; inversion H; subst text; clear H; table_goal.
-    1,2: destruct (kth_roundtrip G Hwf HnB Hkn) as [nm E]; rewrite HK in E; rewrite E; cbn [gio_bind]; rewrite Hd; exists nm; now rewrite same_but_name_eq.
-    1,2: destruct (dimacs_roundtrip G Hwf HnB Hname) as [nm E]; rewrite HK in E; rewrite E; cbn [gio_bind]; rewrite Hd; exists nm; now rewrite same_but_name_eq.
+    1,2: destruct (kth_roundtrip_gen af G Hwf HnB Hkn) as [nm E]; rewrite HK in E; rewrite E; cbn [gio_bind]; rewrite Hd; exists nm; now rewrite same_but_name_eq.
+    1,2: destruct (dimacs_roundtrip_gen af G Hwf HnB Hname) as [nm E]; rewrite HK in E; rewrite E; cbn [gio_bind]; rewrite Hd; exists nm; now rewrite same_but_name_eq.
   - (* bipartite *)
     destruct f, hd; table H; try discriminate; inversion H; subst text; clear H; table_goal.
-    1,2: destruct (kthb_roundtrip G Hwf HK Hkn) as [nm E]; rewrite E; cbn [gio_bind]; exists nm; now rewrite same_but_name_eq.
+    1,2: destruct (kthb_roundtrip_gen af G Hwf HK Hkn) as [nm E]; rewrite E; cbn [gio_bind]; exists nm; now rewrite same_but_name_eq.
     1,2: rewrite (matrix_roundtrip G Hwf HK); cbn [gio_bind]; exists []; now rewrite same_but_name_eq.
 Qed.
 
-(* ---------- the deviations of the unchanged code, as witnesses ---------- *)
+Theorem graph_roundtrip hd t f G text :
+  gio_wf G -> type_kind_ok t G -> no_nl (io_name G) ->
+  gio_write_graph hd t f G = GOk text ->
+  exists nm, gio_read_graph hd t f text = GOk (same_but_name G nm).
+Proof. exact (graph_roundtrip_gen false hd t f G text). Qed.
+
+(* every exception of the in-house readers of the current code is ValueError, through readGraph too *)
+Theorem read_graph_exn hd t f text e : f <> FGml -> f <> FDot ->
+  gio_read_graph hd t f text = GRaise e -> e = EValueError.
+Proof.
+  intros Hg Hd. unfold gio_read_graph, gio_read_graph_gen.
+  destruct (negb (existsb (gio_fmt_eqb f) (gio_supported hd t))); [intros H; now inversion H|].
+  assert (Hin : forall r : gio_res iograph, (forall e0, r = GRaise e0 -> e0 = EValueError) ->
+                gio_bind r (fun G => match t with TDag => if gio_is_dag G then GOk G else GRaise EValueError | _ => GOk G end) = GRaise e ->
+                e = EValueError).
+  { intros [G|e0] Hr; cbn [gio_bind]; [|intros H; inversion H; subst; now apply Hr].
+    destruct t; try discriminate. destruct (gio_is_dag G); [discriminate|]. intros H; now inversion H. }
+  apply Hin. intros e0. destruct f; try congruence.
+  - destruct t; [apply (kth_exn GioSimple)|apply (kth_exn GioDirected)|apply (kth_exn GioDirected)|apply kthb_exn].
+  - apply dimacs_exn.
+  - apply matrix_exn.
+Qed.
+
+(* ---------- the deviations of the code as found, as witnesses ---------- *)
 Import String.
 Open Scope list_scope.
 Open Scope Z_scope.
@@ -587,15 +752,24 @@ Definition txt (s : string) : gt_str := list_ascii_of_string s.
 (* D6: a kthlist text without a size line *)
 Definition comment_only_text : gt_str := txt "c only a comment" ++ [gt_nl].
 Lemma kth_empty_stopiteration :
-  gio_read_graph true TSimple FKthlist [] = GRaise EStopIteration /\
-  gio_read_graph true TBipartite FKthlist comment_only_text = GRaise EStopIteration.
+  gio_read_graph_as_found true TSimple FKthlist [] = GRaise EStopIteration /\
+  gio_read_graph_as_found true TBipartite FKthlist comment_only_text = GRaise EStopIteration.
+Proof. split; vm_compute; reflexivity. Qed.
+(* ... is a parse error now *)
+Lemma kth_empty_valueerror :
+  gio_read_graph true TSimple FKthlist [] = GRaise EValueError /\
+  gio_read_graph true TBipartite FKthlist comment_only_text = GRaise EValueError.
 Proof. split; vm_compute; reflexivity. Qed.
 
 (* D7: a blank line in a DIMACS graph file *)
 Definition dimacs_blank_text : gt_str := txt "p edge 2 1" ++ [gt_nl; gt_nl] ++ txt "e 1 2" ++ [gt_nl].
-Lemma dimacs_blank_indexerror : gio_read_graph true TSimple FDimacs dimacs_blank_text = GRaise EIndexError.
+Lemma dimacs_blank_indexerror : gio_read_graph_as_found true TSimple FDimacs dimacs_blank_text = GRaise EIndexError.
 Proof. vm_compute. reflexivity. Qed.
-(* the same file without the blank line is fine *)
+(* ... is skipped now *)
+Lemma dimacs_blank_ok :
+  gio_read_graph true TSimple FDimacs dimacs_blank_text = GOk (mkIOG GioSimple [] 2 0 [(1, 2)]).
+Proof. vm_compute. reflexivity. Qed.
+(* the same file without the blank line *)
 Definition dimacs_noblank_text : gt_str := txt "p edge 2 1" ++ [gt_nl] ++ txt "e 1 2" ++ [gt_nl].
 Lemma dimacs_noblank_ok :
   gio_read_graph true TSimple FDimacs dimacs_noblank_text = GOk (mkIOG GioSimple [] 2 0 [(1, 2)]).
@@ -603,17 +777,22 @@ Proof. vm_compute. reflexivity. Qed.
 
 (* D8: a left vertex listed twice *)
 Definition kthb_dup_text : gt_str := txt "3" ++ [gt_nl] ++ txt "1 : 2 0" ++ [gt_nl] ++ txt "1 : 3 0" ++ [gt_nl].
-Lemma kthb_dup_accepts : gio_read_kthb kthb_dup_text = GOk (mkIOG GioBipartite [] 1 2 [(1, 2)]).
+Lemma kthb_dup_accepts : gio_read_kthb_as_found kthb_dup_text = GOk (mkIOG GioBipartite [] 1 2 [(1, 2)]).
 Proof. vm_compute. reflexivity. Qed.
+(* ... is rejected now; so is a left vertex out of order *)
+Definition kthb_unordered_text : gt_str := txt "4" ++ [gt_nl] ++ txt "2 : 3 0" ++ [gt_nl] ++ txt "1 : 4 0" ++ [gt_nl].
+Lemma kthb_dup_rejected :
+  gio_read_kthb kthb_dup_text = GRaise EValueError /\ gio_read_kthb kthb_unordered_text = GRaise EValueError.
+Proof. split; vm_compute; reflexivity. Qed.
 
-(* full soundness statement for bipartite kthlist: every listed neighbour is an edge of the result *)
-Definition kthb_sound_statement : Prop :=
-  forall text G, gio_read_kthb text = GOk G ->
+(* full soundness statement for a bipartite kthlist reader: every listed neighbour is an edge of the result *)
+Definition kthb_sound_statement_for (reader : gt_str -> gio_res iograph) : Prop :=
+  forall text G, reader text = GOk G ->
   forall skips sl rest n, gt_lines text = skips ++ sl :: rest -> Forall kth_skip skips ->
     gio_kth_line (-1) sl = GOk (KISize n) ->
     forall r v, In r (kth_rows n rest) -> In v (snd r) -> In (fst r, v - io_n G) (io_edges G).
 
-Lemma kthb_sound_refuted : ~ kthb_sound_statement.
+Lemma kthb_sound_as_found_refuted : ~ kthb_sound_statement_for gio_read_kthb_as_found.
 Proof.
   intros S.
   specialize (S kthb_dup_text _ kthb_dup_accepts [] (txt "3" ++ [gt_nl]) [txt "1 : 2 0" ++ [gt_nl]; txt "1 : 3 0" ++ [gt_nl]] 3).
@@ -622,10 +801,34 @@ Proof.
   cbn in S. destruct S as [S|[]]. inversion S.
 Qed.
 
+(* a size line is never a skipped line *)
+Lemma kth_size_not_skip l n : gio_kth_line (-1) l = GOk (KISize n) -> ~ kth_skip l.
+Proof. intros H Hs. rewrite (Hs (-1)) in H. discriminate. Qed.
+
+(* the decomposition "skipped lines, size line, rest" of a list of lines is unique *)
+Lemma kth_split_unique : forall s1 l1 r1 n1 s2 l2 r2 n2,
+  s1 ++ l1 :: r1 = s2 ++ l2 :: r2 -> Forall kth_skip s1 -> Forall kth_skip s2 ->
+  gio_kth_line (-1) l1 = GOk (KISize n1) -> gio_kth_line (-1) l2 = GOk (KISize n2) -> r1 = r2 /\ n1 = n2.
+Proof.
+  induction s1 as [|a s1 IH]; intros l1 r1 n1 s2 l2 r2 n2 E H1 H2 L1 L2; destruct s2 as [|b s2]; cbn [app] in E.
+  - inversion E; subst. split; [reflexivity|]. rewrite L1 in L2. now inversion L2.
+  - injection E as E1 E2. subst l1. inversion H2 as [|x y Hb Ht]. exfalso. exact (kth_size_not_skip _ _ L1 Hb).
+  - injection E as E1 E2. subst a. inversion H1 as [|x y Hb Ht]. exfalso. exact (kth_size_not_skip _ _ L2 Hb).
+  - injection E as E1 E2. inversion H1 as [|x y Ha Ht1]. inversion H2 as [|x' y' Hb Ht2]. exact (IH _ _ _ _ _ _ _ E2 Ht1 Ht2 L1 L2).
+Qed.
+
+Lemma kthb_sound_statement_holds : kthb_sound_statement_for gio_read_kthb.
+Proof.
+  intros text G H skips sl rest n Hls Hs Hl r v Hr Hv.
+  destruct (kthb_sound text G H) as (skips' & sl' & rest' & n' & Hls' & Hs' & Hl' & _ & _ & _ & _ & Hed).
+  rewrite Hls in Hls'. destruct (kth_split_unique _ _ _ _ _ _ _ _ Hls' Hs Hs' Hl Hl') as [-> ->].
+  apply Hed. exists r, v. auto.
+Qed.
+
 (* unsupported format for the type: refused with ValueError, whatever the text *)
 Lemma format_table_refuses hd t f text : existsb (gio_fmt_eqb f) (gio_supported hd t) = false ->
   gio_read_graph hd t f text = GRaise EValueError.
-Proof. intros H. unfold gio_read_graph. rewrite H. reflexivity. Qed.
+Proof. intros H. unfold gio_read_graph, gio_read_graph_gen. rewrite H. reflexivity. Qed.
 
 (* a concrete instance: 12 vertices, isolated vertices, an edge between a one-digit and a two-digit vertex *)
 Definition g12d : iograph := mkIOG GioDirected (txt "G") 12 0 [(2, 10); (9, 11)].
